@@ -61,3 +61,11 @@ claim(
     "must-pass-through checks on the AST, alias/effect analysis over the abstract interpreter's store events",
     "DESIGN.md section 2 C20",
 )
+
+claim(
+    "C04",
+    "Static: decides the bookkeeping of the symmetry factor two for every component and option valuation by extensivity typing: under symmetry every observed output is intensive or a full-configuration total, nothing that is not a half-span total is doubled, half and full totals are never added, producers and consumers agree on the type of shared quantities, and every stored partial carries the extensivity quotient of its output and input. Does not decide ghost-mesh geometry or folded influence coefficients.",
+    TB,
+    "abstract interpretation with an extensivity type domain (half/full-span exponents, panel axes from symbolic shapes, doubling-factor idioms)",
+    "DESIGN.md section 2 C04",
+)
